@@ -110,7 +110,7 @@ def _detect_rx(ctx):
         ctx.case(("rxburst", chunks[-1]), sample=dict(fragment=kind, start_bit=start, pattern=pat, receiver_output=outs[-1]))
         ctx.count("rx-burst-" + kind)
         impl = " ".join(outs) + " | " + final
-        if ans is not None and ans[k] == impl:
+        if ans is not None and rxworld.mask_like(ans[k], impl) == impl:
             continue            # the model reproduces the receiver byte for byte (including any resynchronisation)
         if outs[-1] != ".":
             ctx.counterexample("body-burst-accepted-by-receiver",
